@@ -8,7 +8,8 @@ from authlib.jose import JsonWebSignature, JsonWebKey, KeySet, OctKey, jwt as _j
 from authlib.jose.errors import JoseError
 
 RULE = ("for each of the 15 registered algorithms: tokens made by the library and by an independent RFC 7515 signer, in compact / flattened / general "
-        "form, under several key forms, plus per-segment bit flips, truncations, extensions, splices, other keys, alg swaps; "
+        "form, under several key forms, plus per-segment bit flips, truncations, extensions, splices, other keys, alg swaps; HMAC keys in str / bytes / JWK / Key form with unusual end octets; "
+        "histories of JsonWebToken.encode calls sharing one header dict across keys; "
         "non-trivial = distinct mutated token or distinct (alg, key form, serialization) round trip")
 ASSUMPTIONS = ["RSA / RSA-PSS / ECDSA / EdDSA are primitives answered by `cryptography` (oracle table); HMAC-SHA2 is computed natively in Lean",
                "the JSON decoding of the protected header is answered by CPython's json (oracle table keyed by the decoded octets)",
